@@ -530,7 +530,7 @@ def rule_cast(rep, F, aud):
 
 def check(rep, F, tier, replay=None):
     aud = common.load_table("e2_audited.json")
-    inv = Inventory(F)
+    inv = Inventory(F, thorough=(tier == "thorough"))
     inv.analyse_all()
     rule_wlen(rep, F, inv, aud)
     rule_rw_keys(rep, F, inv)
